@@ -102,6 +102,9 @@ def run(tier, t0):
     for f in (fs, fa):
         if f is not None:
             n += pairing(res, prog, c, f)
+    # C10.5 the end-of-input decision never uses a stale fully_consumed (boolean abstraction of both loops)
+    from . import parseloop
+    parseloop.check(res, prog, None, 'C10.5')
     # C10.2 parse_more consumes whole lines only
     res.rule('C10.2', 0, floor=2, note='parse_more returns 0 or the length of the input truncated after its last newline')
     pm = need_fn(res, c, 'breakpad_symbols::sym_file::parser::SymbolParser::parse_more', 'C10.2')
